@@ -120,7 +120,10 @@ Next ==
        [] e.ev = "SrcAck"   -> OnSrcAck(e)
        [] e.ev = "Quiet"    -> OnQuiet(e)
        [] e.ev = "Final"    -> OnFinal(e)
-       [] e.ev \in {"TgtClose", "SrcClose"} -> OnFault(e)
+       [] e.ev \in {"TgtClose", "SrcClose", "TgtReplace"} -> OnFault(e)      \* a replaced incarnation loses what it had in flight
+       \* the receiver of source e.s stopped reading its stream although every target kept taking what it was offered: the source
+       \* can never be acknowledged its final high watermark
+       [] e.ev = "Stalled"  -> Flag("incomplete", e.s, -2) /\ UNCHANGED <<nfaults, recvd, hiSeen, assigned, conf, accepted, strm, lastAck, finalHigh>>
        [] e.ev = "Stuck"    -> Flag("stuck", 0, 0) /\ UNCHANGED <<nfaults, recvd, hiSeen, assigned, conf, accepted, strm, lastAck, finalHigh>>
        [] e.ev = "End"      -> (IF e.clean THEN TRUE ELSE Flag("stuck", 0, 0))
                                /\ UNCHANGED <<nfaults, recvd, hiSeen, assigned, conf, accepted, strm, lastAck, finalHigh>>
